@@ -161,11 +161,20 @@ class Bounds:
         # points already inside the limits are returned as they are (re-assembling
         # them as lower + remainder loses their digits below the rounding of the limits)
         inside = (theta >= self.lower) & (theta <= self.upper)
+        # a point which has crossed one limit by less than a width is mirrored in that
+        # limit directly: its image is then as accurate as the point and that limit are,
+        # whereas the general fold below re-assembles it from a remainder of the size of
+        # the width - and with a far limit of 1e30 standing for 'none', every overshoot
+        # below 1e14 would be folded onto the near limit itself
+        under = (theta < self.lower) & (self.lower - theta <= self.width)
+        over = (theta > self.upper) & (theta - self.upper <= self.width)
         if self.all_finite:
             q, rem = np_divmod(theta - self.lower, self.width)
             n = q % 2
             reflection = 1 - 2 * n
             folded = self.lower + reflection * rem + n * self.width
+            folded = where(under, 2 * self.lower - theta, where(over, 2 * self.upper - theta, folded))
+            reflection = where(under | over, -1.0, reflection)
             return where(inside, theta, folded), where(inside, 1.0, reflection)
 
         # one-sided (or absent) limits: the periodic fold is only defined for a finite
@@ -183,6 +192,8 @@ class Bounds:
         folded = where(below, 2 * self.lower - theta, folded)
         folded = where(above, 2 * self.upper - theta, folded)
         reflection = where(self.finite, reflection, where(below | above, -1, 1))
+        folded = where(under, 2 * self.lower - theta, where(over, 2 * self.upper - theta, folded))
+        reflection = where(under | over, -1.0, reflection)
         return where(inside, theta, folded), where(inside, 1.0, reflection)
 
     def inside(self, theta: ndarray) -> bool:
